@@ -1,3 +1,4 @@
+CONSTANT Variant = "good"
 CONSTANT Mode = "both"
 INIT TraceInit
 NEXT TraceNext
